@@ -37,6 +37,10 @@ def run(run):
             run.exhaustive = False
         script += labels_to_script(paths, reset_line="Reset %d" % sz)
     run.extra["graph_edges"] = total_all
+    walks = sim_walks(run, "Pack_mc", "Pack_sim.cfg", 4000 if run.thorough() else 800, 12)
+    # every simulated behaviour starts from some buffer size: recover it from the first state is not possible from labels alone,
+    # so the simulation configuration fixes the size (6) and varies the operations
+    script += labels_to_script(walks, reset_line="Reset 6")
     tr = exec_script(run, exe, [], script, run.path("cover.ndjson"), "edge-cover")
     check_trace(run, "edge-cover", "TracePack", "TracePack.cfg", tr)
     sample_trace(run, tr, 8)
